@@ -192,12 +192,12 @@ pub fn trigger(p: &MuxPlan, id: u64) -> &'static str {
     let mut sibling: Option<&'static str> = None;
     for c in &p.h2_clients {
         for r in c.requests() {
-            let t = if r.headers_pad.map_or(false, |n| n > 0) && !r.cont_split.is_empty() { Some("padded_headers_with_continuation") }
-                else if matches!(r.body.end, EndMode::Trailers(_)) { Some("h2_request_trailers_to_h1_backend") } else { None };
+            // (padded HEADERS followed by CONTINUATION used to be a trigger: fixed in /repo, see known_findings "fixed:")
+            let t = if matches!(r.body.end, EndMode::Trailers(_)) { Some("h2_request_trailers_to_h1_backend") } else { None };
             if let Some(t) = t {
                 if r.id == id { return t; }
                 // a defect hit by one stream takes the shared backend/frontend connection with it
-                sibling = Some(if t == "padded_headers_with_continuation" { "sibling_of_padded_headers_with_continuation" } else { "sibling_of_h2_request_trailers_to_h1_backend" });
+                sibling = Some("sibling_of_h2_request_trailers_to_h1_backend");
             }
         }
     }
